@@ -18,7 +18,7 @@ RULE = ("random nondeterministic PDAs (<=3 states, <=2 stack symbols, <=6 transi
 ASSUMPTIONS = ["comparison bounded to words of length <= %d" % N,
                "PDAs have a start state and a start stack symbol"]
 TIERS = {
-    "quick": {"workers": 4, "random": 450},
+    "quick": {"workers": 6, "random": 500},
     "thorough": {"workers": 16, "random": 8000, "pytest": True, "hard_timeout": 3300},
 }
 MIN = {"quick": {"C13.CFG.to_pda": 500, "C13.PDA.to_cfg": 500, "C13.PDA.to_final_state": 500,
@@ -143,10 +143,12 @@ def install():
 def plan(tier, rng, sl, nslices, stats):
     cfg = TIERS[tier]
     for i in range(cfg["random"]):
-        if i % 3 == 0:
+        if i % 6 == 5:
+            yield {"kind": "pda", "p": gpda.push_chain_case(rng)}
+        elif i % 3 == 0:
             yield {"kind": "cfg", "g": gcfg.random_case(rng, max_vars=3, max_terms=2, max_prods=5, max_body=3)}
         else:
-            yield {"kind": "pda", "p": gpda.random_case(rng, max_push=rng.choice([1, 2, 2, 3]))}
+            yield {"kind": "pda", "p": gpda.random_case(rng, max_push=rng.choice([1, 2, 3, 3]))}
 
 
 def run_case(c, stats):
